@@ -4,6 +4,19 @@ NOT_APPLICABLE = {}
 BASE_NOTE = ("Trusted: Lean 4.33 kernel (axioms at most propext, Classical.choice, Quot.sound; audited per theorem on every run), "
              "the go/ast fact extractor and its expectations, the seeded correspondence harness (coverage reported in evidence). ")
 TEXT = {
+    "C08": dict(
+        text="Theorems line_no_crash, session_no_crash, invalid_gets_error, garbage_then_valid, sessions_isolated, reader_lines over "
+             "a model of RunControlSession (byte-wise reader, JSON/plain dispatch, command table) and of InitFromString/InitFromJSON of "
+             "every built-in command and of work + each subcommand, for every line, every JSON decoding and every unit-index state; "
+             "no_wait_cycle / no_control_command_deadlock: the lock requests the source can make while holding a lock (regenerated "
+             "with go/types, interprocedural, callbacks and deferred calls included) all go upwards in one order, hence no deadlock "
+             "among them for any number of threads. Tie: regenerated facts (guards, reader loop, dispatch, command table, all parser "
+             "messages, lock-request edges with their sites) + differential runs of the real Server + Workceptor over a Unix socket in "
+             "child processes: structured and malformed lines for every command with fields present/absent and of every JSON type, "
+             "unit IDs in memory / on disk only / unknown / with path characters, chunked writes, unterminated lines, 70 kB lines, "
+             "several concurrent sessions (releasing, listing, reloading), a probe session after every case.",
+        note=BASE_NOTE + "encoding/json is an oracle; 'timely' is measured (6 s / 4 s), not proved; three defects found and repaired "
+             "(status type assertion, findUnit self-deadlock, concurrent reload)."),
     "C14": dict(
         text="Theorems mutual_exclusion, no_lost_update, every_write_is_in_the_log, finished_all_applied, no_torn_read, "
              "writer_never_reads_empty over a micro-step model of Save / Load / UpdateFullStatus (acquire, read+apply, truncate, "
